@@ -949,6 +949,7 @@ def r13_9(ctx, counts: dict[str, int]) -> RuleResult:
         '_discard_complement(X): den ∩ X; complement(): ¬den. [\\Da-[\\D]] is the empty class '
         'and [\\D-[\\Sa]] the white spaces.')
     cls = model.find_class('CharacterClass')
+    helper_nodes = {g.name: g.node for g in cls.module.functions.values() if g.cls is cls}
 
     def den(p: int, n: int, u: int) -> int:
         return p | ((u & ~n) if n else 0)
@@ -992,7 +993,7 @@ def r13_9(ctx, counts: dict[str, int]) -> RuleResult:
             for inh in range(full + 1):
                 e0 = [g & inh for g in masks]
                 env = dict(zip(gens, e0))
-                out = VennInterp(m.node, env, inh, calls).execute()
+                out = VennInterp(m.node, env, inh, calls, helper_nodes).execute()
                 got = den(out['self.positive'], out['self.negative'], inh)
                 want = spec(e0, inh)
                 n_pat += 1
